@@ -100,8 +100,37 @@ theorem C20_regress_order_full_false :
   · have : numVer.parse "abc".toList = none := by decide
     rw [this] at hx; cases hx
 
-/-- **Highest pin.**  When every line means to the code what it means to the reference (plain name, pin is a
-version – or the line is ignored by both), the recorded version of every package is a correct selection in the
+/-! ### open findings: the model reproduces them (witnesses replayed on the real code by the harness) -/
+
+/-- (open C20-F7) package names are compared as raw text: two spellings of one package (same `normName`, which is how
+pip and `importlib.metadata` identify it) are two rows -/
+theorem C20_cex_name_variants :
+    (mergeAll current numVer (fun _ => none) [(0, "My_Pkg==1.0".toList), (0, "my-pkg==2.0".toList)]).map
+        (fun e => (e.name, e.version)) = [("My_Pkg".toList, "1.0".toList), ("my-pkg".toList, "2.0".toList)] ∧
+    normName "My_Pkg".toList = normName "my-pkg".toList := by decide
+
+/-- (open C20-F6) a line that is not `name[==version]` is kept as a package name: `p[extra]==1.0` counts as not
+installed, goes to the installer, and the host's `p` 2.0 (which pyscript never recorded) is replaced by 1.0 -/
+theorem C20_cex_extras_override_host :
+    (runOnce current numVer { site := [("p".toList, "2.0".toList)], index := [] } true [] [(0, "p[extra]==1.0".toList)]).2.args
+      = some ["p[extra]==1.0".toList] ∧
+    (runOnce current numVer { site := [("p".toList, "2.0".toList)], index := [] } true [] [(0, "p[extra]==1.0".toList)]).1.site
+      = [("p".toList, "1.0".toList)] := by decide
+
+/-- (open C20-F8) the byte-order mark of the file stays in the first line and becomes part of the package name -/
+theorem C20_cex_bom_first_line :
+    (mergeAll current numVer (fun _ => none) [(0, '\uFEFF' :: "p==1.0".toList)]).map (fun e => (e.name, e.version))
+      = [('\uFEFF' :: "p".toList, "1.0".toList)] := by decide
+
+/-- (open C20-F9) an installed / recorded version string that is not PEP 440 makes the install decision raise
+(`InvalidVersion` escapes `install_requirements`): `decidePkg` has no branch that survives it -/
+theorem C20_cex_legacy_installed_version :
+    (runOnce current numVer { site := [("p".toList, "2004d".toList)], index := [] } true [("p".toList, "2004d".toList)]
+      [(0, "p==1.0".toList)]).2.exc = some "InvalidVersion" := by decide
+
+/-- **Highest pin** (`_partial`: exactly the fragment outside findings C20-F6/F7/F8).  When every line means to the
+code what it means to the reference (plain name written in its normal form, pin is a version – or the line is ignored
+by both), the recorded version of every package is a correct selection in the
 sense of `Selected`: a highest valid pin; the unpinned marker only if no pin exists; nothing if no line names it. -/
 theorem C20_highest (cfg : Cfg) (ver : Ver V) (ok : VerOk ver) (site : Str → Option Str) (ls : List (Nat × Str))
     (hspec : ∀ l ∈ ls, parseLine cfg l.2 = specLine ver l.2) (p : Str) :
